@@ -29,7 +29,7 @@ def build_body(kind, S, extra):
     """-> (body bytes, content type, expected value seen by the handler, in-memory text bytes (for the B rule))"""
     if kind == 'raw':
         d = data_of(S)
-        return d, 'application/octet-stream', d, None
+        return d, (extra.get('raw_ctype') or 'application/octet-stream'), d, None          # read raw through request.body whatever media type is declared
     if kind == 'urlencoded':
         if S < 2:
             d = b'a'[:S]
@@ -172,7 +172,7 @@ def check_case(ctx, case):
         if longest > B:
             ctx.exclude('size_line_longer_than_buffer')
             return
-        headers['Transfer-Encoding'] = 'chunked'
+        headers['Transfer-Encoding'] = case.get('te') or 'chunked'        # (coding names are case-insensitive; the value is a list that ends with chunked)
         stream = FragStream(wire + b'#SENTINEL#', case['pattern'])
         # a chunked request may also carry a Content-Length (the transfer coding takes precedence): only for kinds whose accessors do not
         # consult the declared length themselves
@@ -341,6 +341,8 @@ def case_st(draw):
             'chunks': None, 'pattern': draw(st.one_of(st.just([]), st.lists(st.integers(1, 9), min_size=1, max_size=5), st.lists(st.integers(1, 300), min_size=1, max_size=5)))}
     if kind == 'raw' and draw(st.integers(0, 9)) == 0:
         case['tempdir_broken'] = True
+    if kind == 'raw':
+        case['raw_ctype'] = draw(st.sampled_from([None, None, 'application/json', 'application/json; charset=utf-8', 'text/plain', 'application/x-www-form-urlencoded', 'application/xml', 'image/png']))
     if chunked:
         case['cl_with_chunked'] = draw(st.sampled_from([None, None, 'zero', 'total', 'limit', 'small']))
         case['chunks'] = draw(st.one_of(st.just([1]), st.just([3]), st.just([B]), st.just([B + 1, 2 * B + 3]), st.just([100000]), st.just([1, 100000]),
@@ -348,6 +350,7 @@ def case_st(draw):
         if case['chunks'] == [1] or case['chunks'] == [3]:
             case['chunks'] = case['chunks'] * 4000
         case['trailer_lines'] = draw(st.sampled_from([0, 0, 0, 1, 3, 60, 5000]))
+        case['te'] = draw(st.sampled_from([None, None, 'Chunked', 'CHUNKED', 'gzip, Chunked', ' chunked ', 'chunked,', 'identity, chunked']))
         if draw(st.integers(0, 5)) == 0:
             case['neg_line'] = [draw(st.integers(0, 6)), draw(st.sampled_from([1, 16, 0x2710, 10**6]))]
     return case
@@ -393,6 +396,16 @@ def run(ctx):
                     for chunks in (None, [1000]):
                         ctx.guarded(check_case, {'kind': 'raw', 'S': S, 'M': 64, 'B': 16, 'nparts': 1, 'chunks': chunks, 'pattern': [], 'cfg_form': form, 'req_headers': rh})
         ctx.count('config_form_and_connection_header_grid')
+        # a body read raw through request.body under every declared media type, around both thresholds; the transfer coding spelled in every letter case
+        for rc in ('application/json', 'application/json; charset=utf-8', 'text/plain', 'application/x-www-form-urlencoded', 'application/xml'):
+            for M in (None, 1000):
+                for S in (10, 64, 65, 300, 1000, 1001):
+                    for chunks in (None, [33]):
+                        ctx.guarded(check_case, {'kind': 'raw', 'S': S, 'M': M, 'B': 64, 'nparts': 1, 'chunks': chunks, 'pattern': [], 'raw_ctype': rc})
+        for te in ('Chunked', 'CHUNKED', 'gzip, Chunked', ' chunked ', 'chunked,', 'cHuNkEd'):
+            for S in (10, 100, 101, 5000):
+                ctx.guarded(check_case, {'kind': 'raw', 'S': S, 'M': 100, 'B': 16, 'nparts': 1, 'chunks': [33], 'pattern': [], 'te': te})
+        ctx.count('media_type_and_coding_spelling_grid')
         for S in (9, 65, 300):
             for chunks in (None, [7]):
                 ctx.guarded(check_case, {'kind': 'raw', 'S': S, 'M': None, 'B': 8, 'nparts': 1, 'chunks': chunks, 'pattern': [], 'tempdir_broken': True})
